@@ -271,7 +271,7 @@ Groups(Om, keys, c) ==     \* set of groups (each a sequence); implicit single g
 (* EvalQuery returns [vars, rows] for the non-aggregate, deterministic part (WHERE + projection + DISTINCT);
    ORDER BY / LIMIT / OFFSET / aggregates are judged by predicates in TraceQuery because SPARQL leaves freedom *)
 EvalQuery(q, c) ==
-  LET Om0 == EvalGroup(q.where, c, EmptyMu)
+  LET Om0 == EvalGroup(q.where, c, c.init)     \* c.init = EmptyMu except under the named deviation KF_C15_init_everywhere
       Om1 == IF "postvalues" \in DOMAIN q THEN Join(Om0, ValuesRows(q.postvalues)) ELSE Om0
       V   == IF q.proj = <<"*">> THEN VarsOfGroup(q.where) ELSE SToSet(q.proj)
       P   == Project(Om1, V)
